@@ -51,6 +51,7 @@ fn main() {
             "main" => vmodel::gen::gen_batch(&mut d, &vmodel::gen::BatchCfg { n, max_depth: 2 }),
             "magic" => vmodel::gen_elem::gen_magic_batch(&mut d),
             "sugg" => vmodel::gen_sugg::gen_sugg_batch(&mut d, n / 5),
+            "shapes" => vmodel::gen_elem::gen_shapes_batch(&mut d, n),
             other => panic!("unknown kind {}", other),
         }
     };
